@@ -38,12 +38,12 @@ pub fn passes(tier: &str) -> Vec<Pass> {
     let three = Cfg { nks: 3, ..d.clone() };
     let q = tier == "quick";
     let mut v = vec![
-        mk("2ks", d.clone(), alpha(false, false), "", if q { 6 } else { 8 }, if q { 4 } else { 5 }, if q { 10.0 } else { 300.0 }),
-        mk("2ks/two-sealed-journals", d.clone(), alpha(false, true), "two_sealed_journals", if q { 5 } else { 7 }, 3, if q { 10.0 } else { 300.0 }),
-        mk("2ks+delete", d.clone(), alpha(false, true), "", if q { 6 } else { 7 }, 4, if q { 8.0 } else { 200.0 }),
-        mk("3ks", three.clone(), alpha(true, false), "", if q { 5 } else { 7 }, 3, if q { 8.0 } else { 300.0 }),
+        mk("2ks", d.clone(), alpha(false, false), "", if q { 6 } else { 8 }, if q { 4 } else { 5 }, if q { 8.0 } else { 300.0 }),
+        mk("2ks/two-sealed-journals", d.clone(), alpha(false, true), "two_sealed_journals", if q { 5 } else { 7 }, 3, if q { 8.0 } else { 300.0 }),
+        mk("2ks+delete", d.clone(), alpha(false, true), "", if q { 6 } else { 7 }, 4, if q { 6.0 } else { 200.0 }),
+        mk("3ks", three.clone(), alpha(true, false), "", if q { 5 } else { 7 }, 3, if q { 6.0 } else { 300.0 }),
         // journaling limit at its minimum: each journal rotation asks the keyspaces pinning the oldest journal to rotate
-        mk("2ks/small-journal-limit", Cfg { maxj: true, ..d.clone() }, alpha(false, false), "", if q { 5 } else { 7 }, 3, if q { 5.0 } else { 200.0 }),
+        mk("2ks/small-journal-limit", Cfg { maxj: true, ..d.clone() }, alpha(false, false), "", if q { 5 } else { 7 }, 3, if q { 4.0 } else { 200.0 }),
     ];
     if !q {
         v.push(mk("3ks/tiny", Cfg { tiny: true, ..three.clone() }, alpha(true, true), "", 4, 3, 200.0));
